@@ -25,7 +25,7 @@ def showErr : Err → String
 
 def showRes : Res → String
   | .ok => "r ok"
-  | .err e => "r err " ++ showErr e
+  | .err _ => "r err"   -- the kind of error is not compared (wording of the Go errors is free)
   | .panic => "r panic"
 
 def b2s (b : Bool) : String := if b then "1" else "0"
